@@ -23,6 +23,7 @@
 //  samples: first/last segment flags, first_pixel_position, n_pixels), bits in
 //  transmission order = msb first; libzvbi's vbi_sliced stores Teletext, WSS
 //  and caption bytes lsb-first-transmitted, VPS msb first (sliced.h).
+#include <algorithm>
 #include <cstdio>
 #include <cstdlib>
 #include <cstring>
@@ -131,6 +132,7 @@ struct PPes {
   unsigned data_identifier = 0;
   std::vector<PDu> du;  // without stuffing units
   int stuffing_units = 0, stuffed_inside = 0;
+  size_t stuffing_bytes = 0;  // total size of the stuffing units
 };
 
 static bool fixed_di(unsigned di) { return di >= 0x10 && di <= 0x1F; }
@@ -183,7 +185,7 @@ static bool parse_pes(const Bytes& b, PPes& out, std::string& err) {
     const unsigned char* q = p + pos + 2;
     size_t used = 0;  // bytes of the data field; what follows must be stuffing bytes
     switch (d.id) {
-      case 0xFF: used = 0; out.stuffing_units++; break;
+      case 0xFF: used = 0; out.stuffing_units++; out.stuffing_bytes += 2 + d.len; break;
       case 0x02: case 0x03: {
         if (d.len < 44) PFAIL("Teletext data unit with data_unit_length %u < 44", d.len);
         if ((q[0] & 0xC0) != 0xC0) PFAIL("Teletext data unit: reserved bits %x", q[0] >> 6);
@@ -480,6 +482,26 @@ struct C06 : World {
           if (with_raw && r.chance(1, 6)) { ls.push_back({l, 7}); continue; }
           if (l <= 335) add_ttx(l);
         }
+      if (with_raw && bpl % 251 == 0 && r.chance(1, 3)) {
+        // a frame that ends with a raw data unit of the maximum length one byte before a 184 byte boundary
+        // (with data units of variable length): neither a stuffing unit nor a stuffing byte fits there
+        int sol[64][4], ns = 0;
+        for (int a = 0; a <= 10; a++) for (int b = 0; b <= 1; b++) for (int c = 0; c <= 2; c++) for (int m = 1; m <= 4; m++)
+          if ((46 + 46 * a + 16 * b + 5 * c + 257 * (bpl / 251) * m) % 184 == 183 && ns < 64) { sol[ns][0] = a; sol[ns][1] = b; sol[ns][2] = c; sol[ns][3] = m; ns++; }
+        if (ns) {
+          const int* q = sol[r.below((uint64_t)ns)];
+          ls.clear();
+          for (int l = 7, a = q[0]; l <= 22 && a > 0; l++) {
+            if (l == 16 || l == 21) continue;
+            add_ttx(l); a--;
+          }
+          if (q[1]) ls.push_back({16, 3});
+          if (q[2] >= 1) ls.push_back({21, 5});
+          if (q[2] >= 2) ls.push_back({23, 4});
+          std::sort(ls.begin(), ls.end());
+          for (int m = 0; m < q[3]; m++) ls.push_back({320 + m, 7});
+        }
+      }
       if (r.chance(1, 6) && !ls.empty()) {  // undefined Teletext lines in the middle
         int nz = 1 + (int)r.below(3);
         for (int k = 0; k < nz; k++) {
@@ -790,7 +812,11 @@ struct C06 : World {
       if (pp.data_identifier != cfg.di) { ctx.fail("oracle:pes-data-identifier", "frame %d: data_identifier %02x, configured %02x", frames_fed, pp.data_identifier, cfg.di); return false; }
       if (pp.pts != (pts & PTS_MASK)) { ctx.fail("oracle:pes-pts", "frame %d: PTS %llx encoded, %llx given", frames_fed, (unsigned long long)pp.pts, (unsigned long long)(pts & PTS_MASK)); return false; }
       if (pp.stuffed_inside) ctx.count("stuffing_byte_inside_unit");
-      if (!pp.du.empty() && pp.du.back().id == 0xC6 && pp.du.back().npix == 251) ctx.count("raw_unit_of_maximum_length_last");
+      if (!pp.du.empty() && pp.du.back().id == 0xC6 && pp.du.back().npix == 251) {
+        ctx.count("raw_unit_of_maximum_length_last");
+        // the packet would have ended one byte before the boundary: a whole TS packet more of stuffing
+        if (pp.stuffing_bytes == 185 && pp.size > cfg.min) ctx.count("raw_unit_of_maximum_length_one_byte_gap");
+      }
       size_t d = 0;
       for (size_t i = 0; i < exp_lines.size(); i++) {
         const Line& e = exp_lines[i];
